@@ -1,6 +1,6 @@
 # Sourced by every /verif script. Locates the Go toolchain that matches /repo/go.mod and the
 # stub libflux, and exports an offline build environment. No network is ever used.
-VERIF_ROOT=${VERIF_ROOT:-/verif}
+VERIF_ROOT=${VERIF_ROOT:-$(cd "$(dirname "${BASH_SOURCE[0]}")/.." && pwd)}
 VERIF_REPO=${VERIF_REPO:-/repo}
 export VERIF_ROOT VERIF_REPO
 
